@@ -168,6 +168,7 @@ func (s *shard[K, V]) stageRemoval(key K, value V, reason RemovalReason) bool {
 		return false
 	}
 	s.removeBuf = append(s.removeBuf, removedEntry[K, V]{key: key, value: value, reason: reason})
+	verifStagedInc()
 	return true
 }
 
